@@ -128,7 +128,7 @@ def nr_monitor(s, a, rt):
 
 def probe_attach_inside_callback(seed):
     """Run-to-completion while the set of listeners changes *during* a transition: a callback attaches a listener
-    (whose callbacks live in other groups than the one that is executing) and then sends an event. The nested send
+    (whose callbacks live in any group, the one that is executing included) and then sends an event. The nested send
     must still return None and the sent event must run after the outer transition has completed — attaching a
     listener is not a way out of the queue. Direct Spec on the implementation (the model has one machine per
     operation; DESIGN 11.4)."""
@@ -139,7 +139,8 @@ def probe_attach_inside_callback(seed):
     rng = random.Random(f"{seed}:attach-inside")
     for k in range(24):
         grp = rng.choice(["before", "on", "after", "enter", "exit"])
-        lgrp = rng.choice([g for g in ["before", "on", "after", "enter", "exit"] if g != grp])
+        # (also the group that is executing — the list being iterated then changes under the loop: D44)
+        lgrp = rng.choice(["before", "on", "after", "enter", "exit"])
         is_async = rng.random() < 0.3
         log = []
 
